@@ -390,7 +390,9 @@ func runInventoryCmd(args []string) {
 					case *ast.BinaryExpr:
 						if x.Op == token.QUO || x.Op == token.REM {
 							if _, lit := x.Y.(*ast.BasicLit); !lit {
-								add(&panicSites, "div", x)
+								// a division is identified by its operator only: hoisting the divisor into a variable or renaming
+								// operands is not a new site, one more division in the file is (sites are counted)
+								panicSites = append(panicSites, fmt.Sprintf("%s|%s|div|%s", rel, fn, x.Op.String()))
 							}
 						}
 					case *ast.TypeAssertExpr:
